@@ -20,20 +20,18 @@ func modTimeFsCalc(fs afero.Fs) modTimeCalc {
 // modTimeResolution returns a best-effort guess at the resolution of the file
 // modification time for a given afero.Fs.
 func modTimeResolution(fs afero.Fs) (dur time.Duration, rerr error) {
-	// The probe file lives next to the objects (for the single-bucket backend
-	// the filesystem root is the bucket): use a unique temporary name so that
-	// it can never truncate and remove an object that happens to be called
-	// ".modtime-resolution".
-	tf, err := afero.TempFile(fs, ".", ".modtime-resolution-")
+	// The probe lives next to the objects (for the single-bucket backend the
+	// filesystem root is the bucket): use a unique temporary name so that it
+	// can never truncate and remove an object that happens to be called
+	// ".modtime-resolution". It is a directory, which carries a modification
+	// time like a file does but is no key: should the process be killed before
+	// the probe is removed, an empty directory is left and not an object that
+	// nobody uploaded.
+	name, err := afero.TempDir(fs, ".", ".modtime-resolution-")
 	if err != nil {
 		return 0, err
 	}
-	name := tf.Name()
 	defer fs.Remove(name)
-
-	if err := tf.Close(); err != nil {
-		return 0, err
-	}
 
 	modEqual := func(dur time.Duration) (equal bool, err error) {
 		if err := fs.Chtimes(name, modBaseTime, modBaseTime); err != nil {
